@@ -1,7 +1,7 @@
 """Property -> rules registry (DESIGN.md sections 0, 4, 5)."""
 import copy
 
-from rules import x_emit, x_macro, x_range, g_thread, g_cover, g_alt, g_struct, g_lex, k_keywords, t_tree, x_pp, x_calls, w_api, s_state, p_panic
+from rules import x_emit, x_macro, x_range, x_split, g_thread, g_cover, g_alt, g_struct, g_lex, k_keywords, t_tree, x_pp, x_calls, w_api, s_state, p_panic
 
 TRUSTED_BASE = [
     'rustc front end / MIR construction (nightly 1.97) and syn 2 as parsers of the Rust sources',
@@ -14,7 +14,7 @@ _cache = {}
 
 MODULES = {
     'g_thread': g_thread.run, 'g_cover': g_cover.run, 'g_alt': g_alt.run, 'g_struct': g_struct.run,
-    'x_emit': x_emit.run, 'x_macro': x_macro.run, 'x_range': x_range.run, 'g_lex': g_lex.run, 's_state': s_state.run, 'p_panic': p_panic.run,
+    'x_emit': x_emit.run, 'x_macro': x_macro.run, 'x_range': x_range.run, 'x_split': x_split.run, 'g_lex': g_lex.run, 's_state': s_state.run, 'p_panic': p_panic.run,
     'k_keywords': k_keywords.run, 't_tree': t_tree.run, 'x_pp': x_pp.run, 'x_calls': x_calls.run, 'w_api': w_api.run,
 }
 # rule id -> module that computes it
@@ -30,7 +30,7 @@ RULE_HOME = {
     'W1': 'w_api', 'W2': 'w_api', 'W3': 'w_api', 'W4': 'w_api', 'W5': 'w_api', 'W6': 'w_api',
     'G2': 'g_lex', 'G4': 'g_lex',
     'S1': 's_state', 'S2': 's_state', 'S3': 's_state', 'S4': 's_state', 'S5': 's_state', 'S6': 's_state', 'S7': 's_state',
-    'P1': 'p_panic', 'X4': 'x_emit', 'X13': 'x_macro', 'X14': 'x_macro', 'X15': 'x_macro', 'X16': 'x_macro', 'X17': 'x_range',
+    'P1': 'p_panic', 'X4': 'x_emit', 'X13': 'x_macro', 'X14': 'x_macro', 'X15': 'x_macro', 'X16': 'x_macro', 'X17': 'x_range', 'X18': 'x_split',
 }
 
 
@@ -361,24 +361,34 @@ PROPS = {
         'technique': 'named-parameter threading lint + per-handler emission classes under the flag',
     },
     'C05': {
-        'rules': [rule('X13'), rule('X9'), rule('X10'), rule('X4', drop=['strip-', 'double-emission'])],
-        'explanation': 'NARROW claim: only the structural clauses of macro expansion are decided; the value-level rewriting of the body is not. '
+        'rules': [rule('X13'), rule('X18'), rule('X9'), rule('X10'), rule('X4', drop=['strip-', 'double-emission'])],
+        'explanation': 'NARROW claim: the structural clauses of macro expansion and the run-splitting of the macro body are decided; '
+                       'the rewrite chain applied to each run and the argument lexer are not. '
                        'Misuse is reported by name: DefineNotFound carries the name that was used, DefineArgNotFound the formal that got '
                        'no value, DefineNoArgs the macro name and is raised exactly when the macro has formals and the usage has no '
                        'argument list; formals are walked in order and bound to the actual of the same index, falling back to the '
                        'default in both omitted-argument cases; a macro without body expands to nothing; the name is looked up in the '
-                       'table passed in (X13). The expansion is preprocessed again with the live define table and the table it returns '
-                       'is adopted (X9, X10): nested usages see the table current at the point of use. The usage node has a handler '
-                       'that replaces it and keeps the blanks after it once (X4b).',
-        'decided': 'X13 X9 X10 X4b — error payloads, positional binding with defaults, body-less macros, live-table threading, usage replaced once',
-        'not_decided': 'the substituted text itself: split_text (a character state machine), the `` / `" / `\\`" / line-continuation rewrites, '
-                       'that ordinary string literals are left untouched, token pasting — values of a string-rewriting chain over all '
-                       'define/usage programs, for which no sound static abstraction is in reach',
+                       'table passed in (X13). The tokeniser of the macro body is a finite-state transducer over character classes: '
+                       'its body is interpreted over one representative per class in product with the lexical contexts of 22.5.1, over '
+                       'all reachable states: every character outside leading blanks and one-line comments is appended exactly once, '
+                       'every maximal identifier outside string literals is a run of its own (so a formal there is replaced, and only '
+                       'as a whole identifier), the inside of an ordinary string literal (escaped quotes included) never yields an '
+                       'identifier-only run (no substitution inside strings), a // inside a string does not start a comment, and the '
+                       'two-character tokens of the rewrite chain are not cut by a run boundary (X18). The expansion is preprocessed '
+                       'again with the live define table and the table it returns is adopted (X9, X10): nested usages see the table '
+                       'current at the point of use. The usage node has a handler that replaces it and keeps the blanks after it once '
+                       '(X4b).',
+        'decided': 'X13 X18 X9 X10 X4b — error payloads, positional binding with defaults, body-less macros, run-splitting of the macro '
+                   'body (identifier runs, opaque strings and comments, nothing lost), live-table threading, usage replaced once',
+        'not_decided': 'the text rewrites applied to each run (`` / `" / `\\`" / line continuations) beyond their tokens not being cut, the '
+                       'argument lexer of the usage (nested brackets, strings, commas), a `" inside an ordinary string literal (not '
+                       'judged), and the concatenated text as a value',
         'assumptions': [],
-        'level_text': 'Structural audit of the macro resolver (error discipline, binding loop shape, table threading). It decides necessary '
-                      'conditions of 22.5.1 expansion, not the expanded text.',
-        'level_note': 'narrow: most behavioural breakages of expansion (wrong text) are outside what this check can see',
-        'technique': 'error-payload and binding-shape lint on the macro resolver + named-parameter threading',
+        'level_text': 'Structural audit of the macro resolver (error discipline, binding loop shape, table threading) plus an exhaustive '
+                      'finite-state abstract interpretation of the macro-body tokeniser against the lexical contexts of IEEE 22.5.1. '
+                      'It decides necessary conditions of 22.5.1 expansion, not the expanded text as a whole.',
+        'level_note': 'narrow: breakages of the rewrite chain or of the argument lexer are outside what this check can see',
+        'technique': 'finite-state abstract interpretation of the body tokeniser (product with a lexical-context monitor) + error-payload and binding-shape lint on the macro resolver + named-parameter threading',
     },
     'C11': {
         'rules': [rule('X14'), rule('X7'), rule('X10'), rule('X9')],
